@@ -316,7 +316,7 @@ func monC08(b []byte) string {
 			}
 		}
 	}
-	return ""
+	return interleaveCheck("st", b)
 }
 
 // C09: byte and string variants agree
@@ -686,8 +686,33 @@ func iterAfterReset(b []byte, what string) string {
 	return pass("pass after a partial pass and Reset")
 }
 
+// interleaveCheck: the chain of one entry point over b is the same when another text (b rotated by half its
+// length: same length, similar content) is segmented alternately with it, call by call - nothing is
+// remembered from one call that another text's call could pick up
+func interleaveCheck(kind string, b []byte) string {
+	if len(b) < 2 {
+		return ""
+	}
+	h := len(b) / 2
+	other := append(append([]byte{}, b[h:]...), b[:h]...)
+	for _, str := range []bool{false, true} {
+		if a, c := realChainInterleaved(kind, b, other, str), realChain(kind, b, str); a != c {
+			return fmt.Sprintf("%s (string form %v): segmented alternately with %+q the chain is %s, alone it is %s", kindName[kind], str, string(other), a, c)
+		}
+	}
+	return ""
+}
+
 func monIter(what string) monitor {
-	return func(b []byte) string { return protect(func() string { return iterAfterReset(b, what) }) }
+	kind := map[string]string{"word": "fw", "sentence": "fs", "line": "fl"}[what]
+	return func(b []byte) string {
+		return protect(func() string {
+			if m := iterAfterReset(b, what); m != "" {
+				return m
+			}
+			return interleaveCheck(kind, b)
+		})
+	}
 }
 
 // C01 (oracle-free part): every cluster-producing entry point reports the same clusters
@@ -734,7 +759,10 @@ func monC01(b []byte) string {
 		if c := u.GraphemeClusterCount(s); c != n {
 			return fmt.Sprintf("GraphemeClusterCount = %d, FirstGraphemeClusterInString finds %d clusters", c, n)
 		}
-		return iterAfterReset(b, "clusters")
+		if m := iterAfterReset(b, "clusters"); m != "" {
+			return m
+		}
+		return interleaveCheck("fg", b)
 	})
 }
 
